@@ -25,7 +25,7 @@ RULE = (
     'of every size from 2 to 160 (400) series, and four long series sharing '
     '100 or 1000 levels followed by a chain of up to 400 (singular values '
     'of the normal equations spread over more than 8 orders of magnitude), '
-    'judged by the zero-residual-sum condition.  Oracle: exact rational '
+    'plus six problems with 1001..1500 series, judged by the zero-residual-sum condition.  Oracle: exact rational '
     'solution of the normal equations written from the statement (residuals '
     'of every series sum to zero), uniqueness (rank n-1), agreement of the '
     'returned offsets up to a common shift to 1e-9 of the value scale.  '
@@ -143,6 +143,10 @@ def big_space(max_n):
     # spread of singular values the normal equations meet in practice
     index += [('head%d+chain' % H, n, v) for H in (100, 1000)
               for n in range(8, 401, 8) for v in (0, 1)]
+    # a few problems far larger than anything else (a code path chosen by
+    # problem size would otherwise never run)
+    index += [(topo, n, 1) for topo in ('chain', 'head100+chain')
+              for n in (1001, 1100, 1500)]
 
     def decode(i):
         topo, n, v = index[i]
